@@ -516,6 +516,41 @@ func genHistCase(r *vlib.R, emit func(string)) int {
 		steps = 10 + r.Intn(12)
 	}
 	count := 1
+	if r.Chance(1, 4) {
+		// an alias chain admitted bottom-up at different instants (no
+		// authority records, so that the wire chase can compose it)
+		n := 2 + r.Intn(3)
+		start := r.Intn(nNames - n + 1)
+		for i := start + n - 1; i >= start; i-- {
+			name := fmt.Sprintf("n%d", i)
+			ttl := vlib.Pick(r, []int64{5, 6, 10, 12, 30, 60, 300})
+			kind := fmt.Sprintf("c%d", i+1)
+			if i == start+n-1 {
+				kind = "p"
+			}
+			lease := "-"
+			if r.Chance(1, 5) {
+				l := vlib.Pick(r, []int64{3, 4, 6, 10, 60})
+				lease = fmt.Sprint(l)
+				g.note(l)
+			}
+			g.note(ttl)
+			g.note(5)
+			emit(fmt.Sprintf("c q %s %s f %s %s=%s:p%d:-:%s:-", g.route(), name, vlib.B(r.Bool()), name, kind, ttl, lease))
+			g.admitted[name] = true
+			count++
+			if r.Chance(2, 3) {
+				emit(fmt.Sprintf("c adv %d", g.pickAdvance()))
+				count++
+			}
+		}
+		head := fmt.Sprintf("n%d", start)
+		for k := 0; k < 3; k++ {
+			emit(fmt.Sprintf("c q wire %s f %s -", head, vlib.B(r.Bool())))
+			emit(fmt.Sprintf("c adv %d", g.pickAdvance()))
+			count += 2
+		}
+	}
 	jcap := 40
 	if g.aligned {
 		jcap = 13
